@@ -284,17 +284,17 @@ class timemodel(_coreiterative):
             dtloc = self.modeldisc.calc_timestep(self.Qn, condition)
             mindtloc = min(dtloc) # mindtloc = dtloc
             Qnn = self.Qn.copy()
-            if isave < nsave: # specific step to save result and go back to Qn
-                if self.Qn.time+mindtloc >= tsave[isave]:
-                    # compute smaller step with same integrator
-                    self.step(Qnn, tsave[isave]-self.Qn.time)
-                    Qnn.it = self._itstart + self._nit
-                    results.append(Qnn)
-                    if verbose:
-                        print("save state at it {:5d} and time {:6.2e}".format(self._nit, Qnn.time))
-                    isave += 1
-                    # step back to self.Qn
-                    Qnn = self.Qn.copy()
+            # specific step(s) to save result and go back to Qn
+            while (isave < nsave) and (self.Qn.time+mindtloc >= tsave[isave]):
+                # compute smaller step with same integrator
+                self.step(Qnn, tsave[isave]-self.Qn.time)
+                Qnn.it = self._itstart + self._nit
+                results.append(Qnn)
+                if verbose:
+                    print("save state at it {:5d} and time {:6.2e}".format(self._nit, Qnn.time))
+                isave += 1
+                # step back to self.Qn
+                Qnn = self.Qn.copy()
             self.step(Qnn, dtloc if dtlocal else mindtloc)
             self.Qn = Qnn
             self._nit += 1
